@@ -178,13 +178,110 @@ def run_case(n, c):
     return res
 
 
+def run_main_case(n, c):
+    """the command line driver: demux.py __main__ over the lanes of one library (files named the Illumina way), then the
+    same abstraction as run_case on the concatenation of the lanes"""
+    import runpy
+    st = setup()
+    from singlecellmultiomics.fastqProcessing.fastqIterator import FastqIterator
+    from singlecellmultiomics.modularDemultiplexer.baseDemultiplexMethods import IlluminaBaseDemultiplexer
+    dmx = st['dmx']
+    d = os.path.join(os.environ['SCMO_SCRATCH'], 'case%d' % n)
+    indir, outdir = os.path.join(d, 'in'), os.path.join(d, 'out')
+    os.makedirs(indir)
+    nm = len(c['files'])
+    lanes, off = [], 0
+    for li, size in enumerate(c['lane_sizes']):
+        paths = []
+        for k in range(nm):
+            p = os.path.join(indir, 'LIBA_S1_L%03d_R%d_001.fastq.gz' % (li + 1, k + 1))
+            lines = c['files'][k]['lines'][4 * off:4 * (off + size)]
+            with gzip.open(p, 'wb') as h:
+                h.write((c['eol'].join(lines) + (c['eol'] if lines else '')).encode('utf-8'))
+            paths.append(p)
+        lanes.append(paths)
+        off += size
+    argv = ['demux.py'] + [p for paths in lanes for p in paths] + ['-use', ','.join(c['use']), '--y', '-o', outdir]
+    if c['maxp'] is not None:
+        argv += ['-n', str(c['maxp'])]
+    if not c['rejects']:
+        argv.append('--norejects')
+    if c['sc']:
+        argv.append('--scsepf')
+    if nm == 1:
+        argv.append('--se')
+    script = os.path.join(os.environ['SCMO_REPO'], 'singlecellmultiomics', 'modularDemultiplexer', 'demux.py')
+    res = {}
+    devnull = open(os.devnull, 'w')
+    old, oldargv, oldcwd = sys.stdout, sys.argv, os.getcwd()
+    sys.stdout, sys.argv = devnull, argv
+    os.chdir(d)
+    try:
+        crash = None
+        try:
+            runpy.run_path(script, run_name='__main__')
+        except SystemExit as e:
+            if e.code not in (None, 0):
+                crash = 'SystemExit'
+        except Exception as e:
+            crash = exc_kind(e)
+        libdir = os.path.join(outdir, 'LIBA')
+        outs, lg = {}, ''
+        if os.path.isdir(libdir):
+            for fn in sorted(os.listdir(libdir)):
+                if fn.endswith('.gz'):
+                    with gzip.open(os.path.join(libdir, fn), 'rb') as h:
+                        outs[fn] = h.read().decode('utf-8')
+                elif fn == 'demultiplexing.log':
+                    lg = open(os.path.join(libdir, fn)).read()
+        res['out_files'] = outs
+        tot = re.findall(r'^done, processed:\t(\d+) reads$', lg, re.M)
+        ly = {}
+        for block in lg.split('Strategy\tReads\n')[1:]:
+            for line in block.splitlines():
+                if '\t' not in line or line.startswith('processing input files') or line.startswith('done, processed'):
+                    break
+                a, b = line.rsplit('\t', 1)
+                ly[a] = ly.get(a, 0) + int(b)
+        if crash or not tot or 'Demultiplexing finished' not in lg:
+            res['result'] = {'crash': crash or 'NoLog'}
+        else:
+            res['result'] = {'processed': int(tot[-1]), 'yields': ly}
+        res['log'] = {'processed': res['result'].get('processed'), 'yields': ly}
+        strategies = dmx.getSelectedStrategiesFromStringList(c['use'], verbose=False)
+        res['order'] = [s.shortName for s in strategies]
+        pairs = []
+        for paths in lanes:
+            pairs += [list(t) for t in FastqIterator(*paths)]
+        res['pairs'] = [[[r.header, r.sequence, r.plus, r.qual] for r in t] for t in pairs]
+        base = IlluminaBaseDemultiplexer(indexFileParser=dmx.indexParser, barcodeParser=dmx.barcodeParser, probe=None)
+        outcomes, rejhdr = [], []
+        nh = 2 if nm == 2 else 1
+        for s in strategies:
+            col = []
+            for t in pairs:
+                o, reason = outcome_of(s, tuple(t), 'LIBA', c['sc'], nh)
+                col.append(o)
+                if o[0] == 1:
+                    for r in t:
+                        rejhdr.append([[r.header, r.sequence, r.plus, r.qual], o[1], rej_header(base, r, 'LIBA', reason)])
+            outcomes.append(col)
+        res['outcomes'] = outcomes
+        res['rejhdr'] = rejhdr
+    finally:
+        sys.stdout, sys.argv = old, oldargv
+        os.chdir(oldcwd)
+        devnull.close()
+    return res
+
+
 def handler(p):
     if p.get('cmd') == 'describe':
         return describe()
     out = []
     for n, c in enumerate(p['cases']):
         try:
-            out.append(run_case(n, c))
+            out.append(run_main_case(n, c) if c.get('main_script') else run_case(n, c))
         except BaseException as e:
             out.append({'error': '%s: %s' % (type(e).__name__, e)})
     return {'cases': out}
